@@ -32,13 +32,19 @@ PROP = dict(
                    'unmapped absent, others unchanged, failures change nothing), inactive_leaves_active_bit_identical (PDT.Map on an '
                    'inactive table, every case: every word outside the inactive tree, the swapped/restored entry 511 included, is '
                    'bit-identical; the inactive space changes as map_refines says), inactive_unmap_leaves_active_bit_identical, '
-                   'pdt_init_refines, region_pages + region_refines, setframe_needs_40_bits (D13). The model '
+                   'pdt_init_refines, region_pages + region_refines, setframe_needs_40_bits (D13). kernel.Memset / kernel.Memcopy '
+                   '(mem_util.go) are inside the model, not assumed: memset_fills (as written - target[0]=value then doubling copy calls '
+                   'with a 64-bit index - for every size <= 2^63 exactly the size bytes at addr become value, everything else unchanged, '
+                   'ceil(log2 size) iterations; memset_needs_size_le_2_63: beyond that the index wraps and the loop hangs), memcopy_copies, '
+                   'clearTable_eq_memset (the model\'s clear-frame step IS Memset(f*4096,0,4096) on the byte view of memory). The model '
                    'is tied to the Go code by regenerated constants (a changed shift or mask breaks the proofs), by regenerated expressions '
                    '(tools/exprgen: walk\'s index / entry-address / next-table arithmetic, SetFlags, ClearFlags, Frame, Frame.Address, '
                    'Page.Address are proved equal to the model\'s terms in Tie/C04.lean, incl. the recurrence E) and by a differential run '
                    'of the real code over a software MMU with a full physical-memory comparison after every call; the property statement '
                    'is also evaluated by an independent oracle on the implementation\'s page tables.',
-        level_note='Proved for the model, all cases: Map (0-3 new levels, failure anywhere), Unmap, Translate, histories, PDT.Map '
+        level_note='kernel.Memset/Memcopy are modelled as written and verified (Model/MemUtil.lean; Go\'s builtin copy is the primitive) and '
+                   'tied to the real functions by a differential run on guarded host buffers (boundary sizes, unaligned, overlapping) with '
+                   'oracle clauses memset-fills / memcopy-copies. Proved for the model, all cases: Map (0-3 new levels, failure anywhere), Unmap, Translate, histories, PDT.Map '
                    'and PDT.Unmap on an inactive table. PDT.Init (pdt_init_refines) and the page loops of '
                    'MapRegion/IdentityMapRegion (region_pages + region_refines; the reservation arithmetic is C07). Hypotheses: the '
                    'tables reachable from the root form a tree and the allocator hands out RAM frames < 2^40 that are pairwise distinct '
